@@ -3,12 +3,21 @@ import Mathlib.Data.Rat.Floor
 import Splipy.Lemmas.C05Knots
 import Splipy.Lemmas.C05Geometry
 import Splipy.Lemmas.Elevation
+import Splipy.Lemmas.SchoenbergWhitney
 
 /-!
 # Property C05 — order elevation preserves geometry and continuity; lowering undoes it
 
 Model: `Splipy/Model/Order.lean` (+ `Basis.raiseOrder`, `knotSpans`, `continuity` in
 `Model/BasisOps.lean`).  Helper lemmas: `Lemmas/C05Knots.lean`, `C05LinAlg.lean`, `C05Geometry.lean`.
+
+Status: for clamped non-periodic continuous bases in ONE parametric direction C05 is a full proof
+(`C05_knots` + `C05_geometry_clamped_full` + `C05_lower_left_inverse_clamped` + `C05_api`): both
+analytic facts, degree-elevation inclusion (`Lemmas/Elevation.lean`) and Schoenberg–Whitney at the
+Greville points (`Lemmas/SchoenbergWhitney.lean`), are proved.  Still partial: periodic bases
+(`C05_geometry_partial` / `C05_lower_left_inverse_partial` with named hypotheses; the pinned
+`lower_order` raises `NameError` there), the composition of the per-direction steps for pardim 2–3,
+and order-1 objects (no Greville points / `lower_order` refuses order 1 — listed findings).
 
 Notation: a clamped (open) knot vector of order `p` is `expand (clampedU x0 xl umid) (clampedM p mmid)`
 — end knots `x0`, `xl` with multiplicity `p`, interior distinct knots `umid` with multiplicities
@@ -142,9 +151,9 @@ the model's `raise_order_implicit` returns exactly the net `c'`, so the evaluate
 The left-inverse property of the returned inverse is a theorem (`Mat.invChecked_spec`: the model
 checks the certificate `Ai·A = I` exactly; by `C05_hsw_forms` the check never fails and the two
 forms of `H_sw` are equivalent), not an assumption.
-This is the GENERAL statement (any pair of bases).  For clamped non-periodic bases `H_incl` is
-discharged — see `C05_geometry_clamped` — and `H_sw` (Schoenberg–Whitney at the Greville points) is
-the one remaining analytic hypothesis.  Missing for full strength: `H_sw`; `H_incl` for periodic
+This is the GENERAL statement (any pair of bases, periodic included).  For clamped non-periodic
+bases `H_incl` is discharged (`C05_geometry_clamped`) and so is `H_sw`
+(`C05_geometry_clamped_full`: a full proof, no analytic hypothesis).  Missing for full strength: `H_sw`; `H_incl` for periodic
 bases; the composition of the per-direction steps for pardim 2–3 (commuting contractions of
 different axes) is not formalised; the link from the model's basis rows to the Cox–de Boor
 specification is property C01. -/
@@ -169,7 +178,7 @@ theorem C05_geometry_partial (o : Obj K) (tol : K) (b b' : Basis K) (a : ℕ) (p
         ∑ l ∈ Finset.range pts.size, L i l * (Obj.basisMat b' tol pts.toList 0 true).get l j
           = if i = j then 1 else 0) →
       ∀ r o', o.curveRaiseOrder tol (a : Int) = .ok (r, o') →
-        r = .self ∧ o'.bases = #[b'] ∧ o'.rational = o.rational ∧
+        r = .self ∧ o'.bases = #[b'] ∧ o'.rational = o.rational ∧ o'.cps.shape = [pts.size, nc] ∧
         (∀ i, i < pts.size → ∀ c, c < nc → o'.cps.get (i * nc + c) = c' i c) ∧
         (∀ t, ∀ c, c < nc →
           ∑ k ∈ Finset.range pts.size, (b'.evaluate tol t 0 true).getD k 0 * o'.cps.get (k * nc + c)
@@ -194,7 +203,9 @@ the receiver; and in each case the result is `ElevatedFrom tol b b' nc o ·`: si
 rationality, the homogeneous evaluated map `Σ_k N'_k(t) P'_k = Σ_j N_j(t) P_j` for EVERY `t` and
 every component, and (weights) a component that is `≥ 0` on all old control points is `≥ 0` on all
 new ones (the elevation matrix is non-negative; strict positivity is not proved).
-Still missing for the full property: `H_sw` itself, pardim 2–3 composition, periodic bases. -/
+`H_sw` is in turn PROVED for continuous clamped bases under a knot-spacing (or exact-Greville-point)
+hypothesis: see `C05_geometry_clamped_full`, which has no analytic hypothesis left.  Still missing
+for the full property: pardim 2–3 composition, periodic bases. -/
 theorem C05_geometry_clamped (tol : K) (htol : 0 < tol) (q a : ℕ) (hqa : 1 ≤ q + a) (x0 xl : K)
     (umid : List K) (mmid : List ℕ) (hlen : umid.length = mmid.length)
     (hsep : Separated tol (clampedU x0 xl umid)) (hm : ∀ j ∈ mmid, 1 ≤ j)
@@ -229,25 +240,26 @@ theorem C05_geometry_clamped (tol : K) (htol : 0 < tol) (q a : ℕ) (hqa : 1 ≤
     rw [hP, numFunctions_clamped (q+1+a) x0 xl umid _ (by simpa using hlen)]; omega
   -- packaging of the conclusions
   have pack : ∀ o' : Obj K, o'.bases = #[b'] → o'.rational = o.rational →
+      o'.cps.shape = [pts.size, nc] →
       (∀ i, i < pts.size → ∀ c, c < nc → o'.cps.get (i * nc + c) = c' i c) →
       (∀ t, ∀ c, c < nc →
         ∑ k ∈ Finset.range pts.size, (b'.evaluate tol t 0 true).getD k 0 * o'.cps.get (k * nc + c)
           = ∑ j ∈ Finset.range b.numFunctions, (b.evaluate tol t 0 true).getD j 0 * o.cps.get (j * nc + c)) →
       ElevatedFrom tol b b' nc o o' := by
-    intro o' h1 h2 h3 h4
-    refine ⟨h1, h2, ?_, ?_⟩
+    intro o' h1 h2 hsh h3 h4
+    refine ⟨h1, h2, by rw [hsh, hP], ?_, ?_⟩
     · intro t c hc; rw [← hP]; exact h4 t c hc
     · intro c hc hpos k hk
       rw [h3 k (by omega) c hc]
       exact Finset.sum_nonneg (fun j hj => mul_nonneg (hpos j (Finset.mem_range.mp hj)) (hA j k))
   refine ⟨hraise, pts, hg, fun Ni H_sw => ?_⟩
-  obtain ⟨o', ho', h1, h2, _, h4, h5⟩ := hgeo.1 Ni H_sw
+  obtain ⟨o', ho', h1, h2, h3, h4, h5⟩ := hgeo.1 Ni H_sw
   obtain ⟨_, hinv⟩ := Mat.invChecked_spec _ Ni H_sw
   have hrows : (Obj.basisMat b' tol pts.toList 0 true).nrows = pts.size := by
     simp [Mat.nrows, basisMat_size]
   rw [hrows] at hinv
-  refine ⟨⟨o', ho', pack o' h1 h2 h4 h5⟩, fun ha => ?_, fun ha => ?_⟩
-  · refine ⟨o', ?_, pack o' h1 h2 h4 h5⟩
+  refine ⟨⟨o', ho', pack o' h1 h2 h3 h4 h5⟩, fun ha => ?_, fun ha => ?_⟩
+  · refine ⟨o', ?_, pack o' h1 h2 h3 h4 h5⟩
     unfold Obj.raiseOrder
     have hpd : o.pardim = 1 := by simp [Obj.pardim, hs]
     have hguard : Obj.raiseGuard tol o.bases.toList = .ok true := by
@@ -256,8 +268,104 @@ theorem C05_geometry_clamped (tol : K) (htol : 0 < tol) (q a : ℕ) (hqa : 1 ≤
     simp [Obj.normRaises, hpd, ha0, hguard, ho']
   · obtain ⟨o2, ho2⟩ := curveRaiseOrder_succeeds o tol b b' a ha pts b.numFunctions nc hn0 hb hs hraise hg
       hpts0 (fun i j => Ni.get i j) hinv
-    obtain ⟨_, g1, g2, g4, g5⟩ := hgeo.2 (fun i j => Ni.get i j) ha hn0 hpts0 hinv .self o2 ho2
-    exact ⟨o2, ho2, pack o2 g1 g2 g4 g5⟩
+    obtain ⟨_, g1, g2, g3, g4, g5⟩ := hgeo.2 (fun i j => Ni.get i j) ha hn0 hpts0 hinv .self o2 ho2
+    exact ⟨o2, ho2, pack o2 g1 g2 g3 g4 g5⟩
+
+/-- **C05, geometry for clamped non-periodic bases — FULL (no analytic hypothesis).**  One
+parametric direction, `nc` homogeneous components (rational objects included).  `b` is any clamped
+CONTINUOUS basis of order `p = q+1` (end knots of multiplicity `p`, interior distinct knots `umid`
+with multiplicities `1 ≤ mmid ≤ q`), `b'` the basis `b.raise_order(a)` returns, any amount `a ≥ 1`,
+any control net.  Knot hypothesis, one of
+* spacing: distinct knots more than `2·(p'−1)·tol` apart, `p' = q+1+a` the new order (then the
+  tolerance-snapped Greville points stay nested), or
+* distinct knots more than `tol` apart and the Greville points of `b'` are `ExactAt tol` (each is
+  exactly a knot or farther than `tol` from every knot, so `snap` does not move it).
+Then, with both `H_incl` (degree-elevation inclusion, `Lemmas/Elevation.lean`) and `H_sw`
+(Schoenberg–Whitney at the Greville points, `Lemmas/SchoenbergWhitney.lean`) PROVED:
+`raise_order_implicit(a)`, the public `SplineObject.raise_order(a)` and `Curve.raise_order(a)` all
+SUCCEED (no `LinAlgError`), the public methods return the receiver, and the result is
+`ElevatedFrom tol b b' nc o ·`: basis `b'`, matching net shape, same rationality, the homogeneous
+evaluated map unchanged for EVERY `t` and component, non-negative components (weights) stay
+non-negative.  Together with `C05_knots` (orders, domain, periodicity, continuity at every knot)
+this is the full raise-part of property C05 for clamped bases in one parametric direction.
+Sharpness: some hypothesis beyond `Separated tol` is necessary — with `tol = 1` on knots
+`0,0,0,3/2,3,3,3` snapping collapses two Greville points and the model (like the code) raises
+`LinAlgError` (kernel-checked counterexample at the end of `Lemmas/SchoenbergWhitney.lean`); with
+the default `tol = 1e-10` the spacing hypothesis is satisfied by every generated case.
+Remaining partial for C05: periodic bases, the pardim 2–3 composition of the per-direction steps,
+order-1 results (`q + a = 0`: no Greville points). -/
+theorem C05_geometry_clamped_full (tol : K) (htol : 0 < tol) (q a : ℕ) (ha : 1 ≤ a) (x0 xl : K)
+    (umid : List K) (mmid : List ℕ) (hlen : umid.length = mmid.length)
+    (hm : ∀ j ∈ mmid, 1 ≤ j ∧ j ≤ q)
+    (hknots : Separated (2 * ((q + a : ℕ) : K) * tol) (clampedU x0 xl umid) ∨
+      (Separated tol (clampedU x0 xl umid) ∧
+        ∀ pts, (openBasis (q+1+a) (clampedU x0 xl umid) (clampedM (q+1+a) (mmid.map (· + a)))).greville = .ok pts →
+          ∀ t ∈ pts.toList, (openBasis (q+1+a) (clampedU x0 xl umid)
+            (clampedM (q+1+a) (mmid.map (· + a)))).ExactAt tol t))
+    (o : Obj K) (nc : ℕ)
+    (hb : o.bases = #[openBasis (q+1) (clampedU x0 xl umid) (clampedM (q+1) mmid)])
+    (hs : o.cps.shape = [(openBasis (q+1) (clampedU x0 xl umid) (clampedM (q+1) mmid)).numFunctions, nc]) :
+    let b := openBasis (q+1) (clampedU x0 xl umid) (clampedM (q+1) mmid)
+    let b' := openBasis (q+1+a) (clampedU x0 xl umid) (clampedM (q+1+a) (mmid.map (· + a)))
+    (∃ o', o.raiseOrderImplicit tol [a] = .ok o' ∧ ElevatedFrom tol b b' nc o o') ∧
+    (∃ o', o.raiseOrder tol [(a : Int)] none = .ok (.self, o') ∧ ElevatedFrom tol b b' nc o o') ∧
+    (∃ o', o.curveRaiseOrder tol (a : Int) = .ok (.self, o') ∧ ElevatedFrom tol b b' nc o o') := by
+  intro b b'
+  have hfac : tol ≤ 2 * ((q + a : ℕ) : K) * tol := by
+    have h1 : (1 : K) ≤ ((q + a : ℕ) : K) := by exact_mod_cast (by omega : 1 ≤ q + a)
+    nlinarith
+  have hsep : Separated tol (clampedU x0 xl umid) := by
+    rcases hknots with h | h
+    · exact separated_mono hfac h
+    · exact h.1
+  have hm1 : ∀ j ∈ mmid, 1 ≤ j := fun j hj => (hm j hj).1
+  have hmq : ∀ j ∈ mmid, j ≤ q := fun j hj => (hm j hj).2
+  obtain ⟨_, pts, hg, h⟩ := C05_geometry_clamped tol htol q a (by omega) x0 xl umid mmid hlen hsep hm1 o nc hb hs
+  obtain ⟨Ni, hNi⟩ : ∃ Ni, Mat.invChecked (Obj.basisMat b' tol pts.toList 0 true) = .ok Ni := by
+    rcases hknots with hgap | ⟨_, hex⟩
+    · exact H_sw_clamped_gap tol htol q a (by omega) x0 xl umid mmid hlen hgap hm1 hmq pts hg
+    · exact H_sw_clamped_exact tol htol q a (by omega) x0 xl umid mmid hlen hsep hm1 hmq pts hg (hex pts hg)
+  obtain ⟨h1, h2, h3⟩ := h Ni hNi
+  exact ⟨h1, h2 ha, h3 ha⟩
+
+/-- **C05, `lower_order` undoes `raise_order` on clamped bases — FULL (no analytic hypothesis).**
+Same bases as `C05_geometry_clamped_full` with `q ≥ 1` (the original order is at least 2:
+`lower_order` refuses to return to order 1, a listed finding), knot spacing `> 2·(p'−1)·tol`.
+For ANY object `o'` that is `ElevatedFrom tol b b' nc o ·` — in particular the result of each of
+the three `raise_order` paths of `C05_geometry_clamped_full` — `o'.lower_order(a)` succeeds and
+returns a NEW object with the original basis `b` (original knot vector, `C05_knots`), the original
+net shape and exactly the original control points of `o`, hence the original map.  `H_sw` for the
+lower basis is `H_sw_clamped_gap` at amount `0`.  So `lower_order` is a left inverse of
+`raise_order` on every clamped continuous one-directional object of order ≥ 2. -/
+theorem C05_lower_left_inverse_clamped (tol : K) (htol : 0 < tol) (q a : ℕ) (hq : 1 ≤ q) (ha : 1 ≤ a)
+    (x0 xl : K) (umid : List K) (mmid : List ℕ) (hlen : umid.length = mmid.length)
+    (hm : ∀ j ∈ mmid, 1 ≤ j ∧ j ≤ q)
+    (hgap : Separated (2 * ((q + a : ℕ) : K) * tol) (clampedU x0 xl umid))
+    (o o' : Obj K) (nc : ℕ)
+    (hel : ElevatedFrom tol (openBasis (q+1) (clampedU x0 xl umid) (clampedM (q+1) mmid))
+      (openBasis (q+1+a) (clampedU x0 xl umid) (clampedM (q+1+a) (mmid.map (· + a)))) nc o o') :
+    let b := openBasis (q+1) (clampedU x0 xl umid) (clampedM (q+1) mmid)
+    ∃ o'', o'.lowerOrder tol [(a : Int)] = .ok (.new, o'') ∧ o''.bases = #[b] ∧
+      o''.rational = o'.rational ∧ o''.cps.shape = [b.numFunctions, nc] ∧
+      ∀ j, j < b.numFunctions → ∀ c, c < nc → o''.cps.get (j * nc + c) = o.cps.get (j * nc + c) := by
+  intro b
+  have hq1 : (1 : K) ≤ ((q + a : ℕ) : K) := by exact_mod_cast (by omega : 1 ≤ q + a)
+  have hq0 : (1 : K) ≤ ((q + 0 : ℕ) : K) := by exact_mod_cast (by omega : 1 ≤ q + 0)
+  have hqa : ((q + 0 : ℕ) : K) ≤ ((q + a : ℕ) : K) := by exact_mod_cast (by omega : q + 0 ≤ q + a)
+  have hsep : Separated tol (clampedU x0 xl umid) := separated_mono (by nlinarith) hgap
+  have hgap0 : Separated (2 * ((q + 0 : ℕ) : K) * tol) (clampedU x0 xl umid) :=
+    separated_mono (by nlinarith) hgap
+  have hm1 : ∀ j ∈ mmid, 1 ≤ j := fun j hj => (hm j hj).1
+  have hmq : ∀ j ∈ mmid, j ≤ q := fun j hj => (hm j hj).2
+  obtain ⟨e1, _, e3, e4, _⟩ := hel
+  have hlow := (C05_knots tol htol (q+1) a (by omega) x0 xl umid mmid hlen hsep hm1).2.2.2.2.2.2.2.2.2 (by omega)
+  obtain ⟨pts2, hg2⟩ := greville_ok b (show q + 1 ≠ 1 by omega)
+  have hb0 : openBasis (q+1+0) (clampedU x0 xl umid) (clampedM (q+1+0) (mmid.map (· + 0))) = b := by
+    simp [b]
+  obtain ⟨Ni2, hNi2⟩ := H_sw_clamped_gap tol htol q 0 (by omega) x0 xl umid mmid hlen hgap0 hm1 hmq pts2
+    (by rw [hb0]; exact hg2)
+  rw [hb0] at hNi2
+  exact lowerOrder_pardim1 o o' tol b _ a ha pts2 b.numFunctions _ nc Ni2 e1 e3 rfl hlow hg2 hNi2 e4
 
 /-- **C05, `lower_order` is a left inverse (partial).**  One parametric direction.  Let `o'` be an
 elevated object (basis `b'`, net of shape `[n', nc]`) that evaluates to the same homogeneous map as
@@ -265,7 +373,7 @@ elevated object (basis `b'`, net of shape `[n', nc]`) that evaluates to the same
 `C05_geometry_partial` — and let `b'.lower_order(a) = b` (`C05_knots`).  ASSUMING `H_sw` for the
 LOWER basis (the Greville collocation matrix of `b` has the model's certified inverse),
 `o'.lower_order(a)` returns a NEW object with basis `b` whose control points are exactly those of
-`o`.  (`hsame` is delivered by `C05_geometry_clamped` for clamped bases without assuming `H_incl`.)
+`o`.  (General statement; for clamped bases `C05_lower_left_inverse_clamped` has no hypothesis left.)
 Missing for full strength: `H_sw`, `H_incl` for periodic bases, pardim 2–3 composition, and
 periodic bases (where the pinned `BSplineBasis.lower_order` raises `NameError`). -/
 theorem C05_lower_left_inverse_partial (o o' : Obj K) (tol : K) (b b' : Basis K) (a : ℕ) (ha : 1 ≤ a)
@@ -404,6 +512,26 @@ example : ∃ o', ({ bases := #[c05B2], cps := { shape := [2, 2], data := #[0,0,
     injection this
   subst hpts
   exact (h #[#[1,0,0],#[-1/2,2,-1/2],#[0,0,1]] (by decide +kernel)).1
+
+/-- `C05_geometry_clamped_full` + `C05_lower_left_inverse_clamped` on a non-trivial curve (the
+    segment `(0,0) → (2,4)`, order 2 → 3 → 2) with NO analytic hypothesis: all knot hypotheses are
+    discharged by `simp`/`norm_num`. -/
+example : ∃ o' o'', ({ bases := #[c05B2], cps := { shape := [2, 2], data := #[0,0,2,4] }, rational := false } :
+      Obj ℚ).raiseOrder (1/100) [1] none = .ok (.self, o') ∧
+    o'.lowerOrder (1/100) [1] = .ok (.new, o'') ∧ o''.bases = #[c05B2] ∧
+    ∀ j, j < 2 → ∀ c, c < 2 → o''.cps.get (j * 2 + c) = (#[0,0,2,4] : Array ℚ).getD (j * 2 + c) 0 := by
+  have hgap : Separated (2 * ((1 + 1 : ℕ) : ℚ) * (1/100)) (clampedU (0 : ℚ) 1 []) := by
+    simp [Separated, clampedU]; norm_num
+  obtain ⟨_, ⟨o', h1, hel⟩, _⟩ := C05_geometry_clamped_full (K := ℚ) (1/100) (by norm_num) 1 1 (by norm_num)
+    0 1 [] [] rfl (by simp) (Or.inl hgap)
+    { bases := #[c05B2], cps := { shape := [2, 2], data := #[0,0,2,4] }, rational := false } 2 rfl
+    (by decide +kernel)
+  obtain ⟨o'', h2, h3, _, _, h5⟩ := C05_lower_left_inverse_clamped (K := ℚ) (1/100) (by norm_num) 1 1
+    (by norm_num) (by norm_num) 0 1 [] [] rfl (by simp) hgap _ o' 2 hel
+  refine ⟨o', o'', h1, h2, h3, fun j hj c hc => ?_⟩
+  have hn : (openBasis (1+1) (clampedU (0:ℚ) 1 []) (clampedM (1+1) [])).numFunctions = 2 := by decide +kernel
+  rw [h5 j (by rw [hn]; exact hj) c hc]
+  rfl
 
 /-- A concrete run of the model's Greville interpolation, evaluated by the kernel: the segment with
     control points `(0,0), (2,4)` re-interpolated on the order-3 basis gives the classical elevated
